@@ -377,6 +377,21 @@ pub struct RunOut {
 }
 
 /// run the built binary; `stdin` = Some(text) feeds standard input
+/// marker in a document text that is replaced by the byte 0xFF (never valid in UTF-8) when the text is written
+pub const BAD_BYTE: &str = "\u{1}BADBYTE\u{1}";
+
+pub fn raw_bytes(text: &str) -> Vec<u8> {
+    let parts: Vec<&str> = text.split(BAD_BYTE).collect();
+    let mut out = Vec::new();
+    for (i, p) in parts.iter().enumerate() {
+        if i > 0 {
+            out.push(0xFF);
+        }
+        out.extend_from_slice(p.as_bytes());
+    }
+    out
+}
+
 pub fn run_cli(exe: &str, args: &[String], stdin: Option<&str>, watchdog: Duration) -> RunOut {
     let mut cmd = Command::new(exe);
     cmd.args(args).stdout(Stdio::piped()).stderr(Stdio::piped()).env("RUST_BACKTRACE", "0");
@@ -384,7 +399,7 @@ pub fn run_cli(exe: &str, args: &[String], stdin: Option<&str>, watchdog: Durati
     let mut child = cmd.spawn().expect("spawn cfr binary");
     if let Some(text) = stdin {
         let mut si = child.stdin.take().unwrap();
-        let _ = si.write_all(text.as_bytes());
+        let _ = si.write_all(&raw_bytes(text));
     }
     let start = Instant::now();
     let mut timed_out = false;
